@@ -63,6 +63,7 @@ type Switch struct {
 	Cases      []Case
 	Default    []TNode
 	HasDefault bool
+	DefaultAt  int // number of cases written before {% default %} (len(Cases) = the usual last position)
 }
 
 type CLoop struct {
@@ -180,7 +181,15 @@ func (n Switch) Source(sb *strings.Builder) {
 	} else {
 		sb.WriteString("{% switch %}")
 	}
-	for _, c := range n.Cases {
+	at := n.DefaultAt
+	if at < 0 || at > len(n.Cases) {
+		at = len(n.Cases)
+	}
+	for i, c := range n.Cases {
+		if n.HasDefault && i == at {
+			sb.WriteString("{% default %}")
+			srcList(sb, n.Default)
+		}
 		if n.Arg != "" {
 			sb.WriteString("{% case " + c.Val + " %}")
 		} else {
@@ -188,7 +197,7 @@ func (n Switch) Source(sb *strings.Builder) {
 		}
 		srcList(sb, c.Body)
 	}
-	if n.HasDefault {
+	if n.HasDefault && at == len(n.Cases) {
 		sb.WriteString("{% default %}")
 		srcList(sb, n.Default)
 	}
@@ -290,7 +299,8 @@ func Source(ns []TNode) string {
 	return sb.String()
 }
 
-// --- encoding for the Lean Spec (prefix, space separated; strings in hex) ---
+// --- encoding for the Lean parser oracle (lean/DyntplV/Ast.lean; prefix, space separated; strings in hex) ---
+// Every field that Source() prints is encoded, keyword spellings included.
 
 func encList(sb *strings.Builder, ns []TNode) {
 	fmt.Fprintf(sb, " %d", len(ns))
@@ -308,7 +318,7 @@ func encStrs(sb *strings.Builder, ss []string) {
 func encMods(sb *strings.Builder, ms []ModCall) {
 	fmt.Fprintf(sb, " %d", len(ms))
 	for _, m := range ms {
-		sb.WriteString(" " + hs(m.Name))
+		sb.WriteString(" " + hs(m.Name) + " " + b01(m.Args != nil))
 		encStrs(sb, m.Args)
 	}
 }
@@ -325,11 +335,11 @@ func (c Cond) enc(sb *strings.Builder) {
 }
 
 func (t Text) Enc(sb *strings.Builder)    { sb.WriteString(" text " + hs(t.S)) }
-func (t Comment) Enc(sb *strings.Builder) { sb.WriteString(" comment") }
+func (t Comment) Enc(sb *strings.Builder) { sb.WriteString(" comment " + hs(t.S)) }
 func (p Print) Enc(sb *strings.Builder) {
 	sb.WriteString(" print " + hs(p.Letters) + " " + hs(p.Path))
 	encMods(sb, p.Mods)
-	sb.WriteString(" " + b01(p.Raw) + " " + hs(p.Pre) + " " + hs(p.Suf))
+	sb.WriteString(" " + b01(p.Raw) + " " + hs(p.Pre) + " " + hs(p.Suf) + " " + hs(p.PreKW) + " " + hs(p.SufKW))
 }
 func (n If) Enc(sb *strings.Builder) {
 	sb.WriteString(" if")
@@ -351,17 +361,22 @@ func (n Switch) Enc(sb *strings.Builder) {
 		sb.WriteString(" " + hs(c.Val))
 		encList(sb, c.Body)
 	}
+	at := n.DefaultAt
+	if at < 0 || at > len(n.Cases) {
+		at = len(n.Cases)
+	}
 	sb.WriteString(" " + b01(n.HasDefault))
+	fmt.Fprintf(sb, " %d", at)
 	encList(sb, n.Default)
 }
 func (n CLoop) Enc(sb *strings.Builder) {
-	sb.WriteString(" cloop " + hs(n.Var) + " " + hs(n.Init) + " " + hs(n.Op) + " " + hs(n.Lim) + " " + hs(n.Step) + " " + hs(n.Sep))
+	sb.WriteString(" cloop " + hs(n.Var) + " " + hs(n.Init) + " " + hs(n.Op) + " " + hs(n.Lim) + " " + hs(n.Step) + " " + hs(n.Sep) + " " + hs(n.SepKW))
 	encList(sb, n.Body)
 	sb.WriteString(" " + b01(n.HasElse))
 	encList(sb, n.Else)
 }
 func (n RLoop) Enc(sb *strings.Builder) {
-	sb.WriteString(" rloop " + hs(n.Key) + " " + hs(n.Val) + " " + hs(n.Src) + " " + hs(n.Sep))
+	sb.WriteString(" rloop " + hs(n.Key) + " " + hs(n.Val) + " " + hs(n.Src) + " " + hs(n.Sep) + " " + hs(n.SepKW))
 	encList(sb, n.Body)
 	sb.WriteString(" " + b01(n.HasElse))
 	encList(sb, n.Else)
@@ -378,14 +393,15 @@ func (n Ctl) Enc(sb *strings.Builder) {
 func (n CtxSet) Enc(sb *strings.Builder) {
 	sb.WriteString(" ctxset " + hs(n.Var) + " " + hs(n.OK) + " " + hs(n.Src))
 	encMods(sb, n.Mods)
-	sb.WriteString(" " + hs(n.As))
+	sb.WriteString(" " + hs(n.As) + " " + hs(n.KW))
 }
 func (n Counter) Enc(sb *strings.Builder) {
-	fmt.Fprintf(sb, " counter %s %s %d", hs(n.Var), hs(n.Kind), n.N)
+	fmt.Fprintf(sb, " counter %s %s %d %s", hs(n.Var), hs(n.Kind), n.N, hs(n.KW))
 }
 func (n Include) Enc(sb *strings.Builder) {
 	sb.WriteString(" include")
 	encStrs(sb, n.Names)
+	sb.WriteString(" " + b01(n.Dot))
 }
 func (n Exit) Enc(sb *strings.Builder) { sb.WriteString(" exit") }
 func (n Region) Enc(sb *strings.Builder) {
